@@ -236,3 +236,7 @@ def r2_page_geometry(ctx):
 def run(ctx):
     r1_layout_predicates(ctx)
     r2_page_geometry(ctx)
+
+
+from .selftest import for_families as _ff  # noqa: E402
+selftest = _ff(['slice'])
